@@ -184,7 +184,9 @@ def r03_2(ctx):
     def ctor_of(adt):
         return [b for b in lib.bodies if b.raw["def_kind"] == "AssocFn" and b.local_ty(0).startswith(adt) and b.raw.get("impl_self_adt") == adt and b.nargs >= 1 and "&" not in b.local_ty(1)[:1]]
 
-    disp_ctor = [b for b in ctor_of(disp_adt) if b.nargs == 2]
+    # the dispatcher's constructor by role: the function (associated or free) that returns a fresh dispatcher
+    # from a writer and a format
+    disp_ctor = [b for b in lib.bodies if b.raw["def_kind"] in ("AssocFn", "Fn") and b.local_ty(0).startswith(disp_adt) and b.nargs == 2 and not any(b.local_ty(i).startswith("&") for i in (1, 2))]
     ctx.need(len(disp_ctor) == 1, "dispatcher constructor not found")
     disp_ctor = disp_ctor[0]
     for adt, fmt in sorted(out_adts.items()):
@@ -678,6 +680,68 @@ def r10_1(ctx):
     for a in ("json", "msgpack"):
         ok = ts.before(a, "yaml")
         ctx.ob(f"{a}-before-yaml", ok, where, f"{a} trial precedes the YAML trial (trial order: {ts.order})" if ok else (f"YAML is tried before {a}: xt's own {a} output would be claimed as YAML" if a == "json" else f"YAML is tried before {a}"))
+
+
+def _mark_of(lib, sup, node, op, depth=0):
+    """'start_mark' / 'end_mark': the libyaml event mark whose byte index the operand holds (read directly or
+    through same-crate accessors), else None."""
+    tr = strace(sup, node, op)
+    for st in tr.steps:
+        if st[0] == "field" and st[1] in ("start_mark", "end_mark"):
+            return st[1]
+    if tr.origin and tr.origin[0] == "call" and depth < 3:
+        f = fn_of(tr.origin[2]) or {}
+        acc = lib.by_id.get(f.get("resolved") or f.get("def"))
+        if acc is not None and f.get("local"):
+            marks = set()
+            for dbb, idx, kind, payload in acc.whole_defs(0):
+                if kind == "assign" and payload["rv"]["k"] == "use":
+                    t2 = trace(acc, payload["rv"]["op"])
+                    marks |= {st[1] for st in t2.steps if st[0] == "field" and st[1] in ("start_mark", "end_mark")}
+                    if not marks and t2.origin and t2.origin[0] == "call":
+                        # one more accessor level (`stream_index(&self.0.end_mark)`)
+                        for a in t2.origin[2]["args"]:
+                            t3 = trace(acc, a)
+                            marks |= {st[1] for st in t3.steps if st[0] == "field" and st[1] in ("start_mark", "end_mark")}
+                elif kind == "call":
+                    for a in payload["args"]:
+                        t3 = trace(acc, a)
+                        marks |= {st[1] for st in t3.steps if st[0] == "field" and st[1] in ("start_mark", "end_mark")}
+            if len(marks) == 1:
+                return marks.pop()
+    return None
+
+
+@rule("R03.5", 2, "the YAML chunker cuts at the right marks: the captured text is trimmed at the START mark of a DOCUMENT_START event and taken up to the END mark of a DOCUMENT_END event", ["C03"])
+def r03_5(ctx):
+    lib = ctx.lib
+    ch = common.chunker(ctx.facts)
+    sup = ch["sup"]
+    edges = common.chunker_event_edges(ctx.facts)
+    polls = [n for n, b_, t in sup.calls() if _is_parser_poll(lib, b_, t)]
+    ctx.need(polls, "parser poll not found in the chunker")
+    # the chunk reader: the capturing io::Read of R05.5
+    crs = [b for b in lib.bodies if b.raw.get("impl_trait") == "std::io::Read" and b.name == "read" and any((fn_of(t) or {}).get("name") == "extend_from_slice" for _, t in b.calls())]
+    ctx.need(len(crs) == 1, "capturing chunk reader not found")
+    cr_adt = crs[0].raw.get("impl_self_adt")
+    WANT = {"YAML_DOCUMENT_START_EVENT": "start_mark", "YAML_DOCUMENT_END_EVENT": "end_mark"}
+    n = 0
+    for ev, want in sorted(WANT.items()):
+        reach = set()
+        for sn, lab, dst in edges.get(ev, []):
+            reach |= set(sup.reachable_from(dst, removed_nodes=polls))
+        cuts = []
+        for nn, b_, t in sup.calls():
+            f = fn_of(t) or {}
+            callee = lib.by_id.get(f.get("resolved") or f.get("def"))
+            if nn in reach and callee is not None and callee.raw.get("impl_self_adt") == cr_adt and len(t["args"]) == 2 and sup.body_of(nn).raw.get("impl_self_adt") != cr_adt and callee.local_ty(2) == "u64":
+                cuts.append((nn, t))
+        ctx.ob(f"cut-site:{ev}", len(cuts) >= 1, sup.site(edges[ev][0][0]) if ev in edges else site(ch["loop"]), f"{len(cuts)} offset-taking call(s) on the chunk reader after a {ev}")
+        for nn, t in cuts:
+            n += 1
+            got = _mark_of(lib, sup, nn, t["args"][1])
+            ctx.ob(f"cut-mark:{ev}:{(fn_of(t) or {}).get('name')}", got == want, sup.site(nn), f"offset is the event's {want}" if got == want else f"offset comes from {got or 'something other than an event mark'}, expected the event's {want}: documents are cut at the wrong byte")
+    ctx.ob("cut-sites", n >= 2, site(ch["loop"]), f"{n} cut(s) examined")
 
 
 @rule("R10.5", 3, "the YAML chunker hands out a document only when libyaml has started the next one or ended the stream: on every other event it goes back to the parser (a first document is judged only after the parser got past its end)", ["C10", "C03"])
